@@ -466,6 +466,40 @@ def py_keps(f, grammar):
     return False
 
 
+def code_consecutive(ref, p, q):
+    """Python mirror of Preds.consecutive = isla_predicates.consecutive AS IT IS: the leaf paths
+    stay relative to the longest common prefix of the two (absolute) argument paths.  Differs from
+    the specification only when that prefix is non-empty (class K_cons_rel)."""
+    p, q = tuple(p), tuple(q)
+    if p == q or not spec_sem.doc_lt(p, q):
+        return False
+    n = 0
+    while n < min(len(p), len(q)) and p[n] == q[n]:
+        n += 1
+    sub = spec_sem.subtree(ref, p[:n])
+    leaves = [r for r, s in spec_sem.nodes(sub) if not s.children]
+    return not any(r != p and r != q and spec_sem.doc_lt(p, r) and spec_sem.doc_lt(r, q) for r in leaves)
+
+
+def uses_consecutive(f):
+    if isinstance(f, L.StructuralPredicateFormula):
+        return f.predicate.name == "consecutive"
+    if isinstance(f, L.PropositionalCombinator):
+        return any(uses_consecutive(a) for a in f.args)
+    if isinstance(f, (L.QuantifiedFormula, L.NumericQuantifiedFormula)):
+        return uses_consecutive(f.inner_formula)
+    return False
+
+
+def spec_verdict_code_consecutive(formula, tree, grammar):
+    """the specification verdict with `consecutive` re-interpreted as the code computes it"""
+    spec_sem.PRED_OVERRIDE["consecutive"] = code_consecutive
+    try:
+        return spec_verdict(formula, tree, grammar)
+    finally:
+        spec_sem.PRED_OVERRIDE.pop("consecutive", None)
+
+
 def is_wide(tree):
     return any(any(i >= 28 for i in p) for p, _ in spec_sem.nodes(tree))
 
@@ -517,14 +551,14 @@ def replay_corpus(run):
 
 
 def known_entries():
-    """open/fixed entries of C03 (known_findings.json is generated from harness/meta/*.findings.json)"""
-    es = lib.known_findings("C03")
-    if not es:
-        import os
-        p = os.path.join(lib.VERIF, "harness", "meta", "C03.findings.json")
-        if os.path.exists(p):
-            es = json.load(open(p))
-    return es
+    """entries of C03: harness/meta/C03.findings.json is the committed source from which
+    known_findings.json is generated (gen_manifest.py); read the source so that the check does not
+    depend on the generated file being fresh.  Never written at check time."""
+    import os
+    p = os.path.join(lib.VERIF, "harness", "meta", "C03.findings.json")
+    if os.path.exists(p):
+        return json.load(open(p))
+    return lib.known_findings("C03")
 
 
 def replay_known(run):
@@ -656,6 +690,10 @@ def run(run):
                     meta["unencodable"] = str(e)
                     lit = None
                 meta["keps"] = py_keps(fobj, g)
+                # K_cons_rel: the formula uses `consecutive` and the implementation's verdict is
+                # exactly the specification's verdict with consecutive read as the code computes it
+                meta["kcons"] = (uses_consecutive(fobj) and not agrees_with_spec(ev, ck, sp)
+                                 and agrees_with_spec(ev, ck, spec_verdict_code_consecutive(fobj, t, g)))
                 if lit is not None:
                     cmp_spec = sp[0] == "ok"
                     cs.append(f"({tname}, {lit}, {g_out_tv(ev)}, {g_out_b(ck)}, {g_bool(sp[1] if cmp_spec else False)}, "
@@ -750,7 +788,9 @@ def run(run):
         # such a divergence is a VIOLATION again.
         definite = (m["evaluate"][0] == "ok" and m["evaluate"][1] in ("TT", "FF") and m["check"][0] == "ok")
         cls = None
-        if definite and m.get("wide"):
+        if definite and m.get("kcons"):
+            cls = "K_cons_rel"
+        elif definite and m.get("wide"):
             cls = "K_wide"
         elif definite and m.get("keps"):
             cls = "K_mexpr_eps_shape"
